@@ -41,7 +41,7 @@ SYNC = {"scheduler": "sync"}
 REFUSALS = (NotImplementedError, IndexError, ValueError, TypeError, AttributeError)
 
 
-class Hang(Exception):
+class Hang(BaseException):  # BaseException: must not be swallowed by `except Exception` in library code
     pass
 
 
